@@ -58,6 +58,15 @@ func handle(line string) string {
 			return "BADREQ"
 		}
 		return lexRun(string(b), f[1] == "n")
+	case "QUOTE":
+		if len(f) != 3 {
+			return "BADREQ"
+		}
+		b, ok := unhex(f[1])
+		if !ok {
+			return "BADREQ"
+		}
+		return quoteRun(string(b))
 	case "SPLIT":
 		if len(f) != 2 {
 			return "BADREQ"
